@@ -12,10 +12,10 @@ import Tahoe.Dir.PackLemmas
 |---|---|
 | "for any set of children (Unicode names, normalized …) packing and unpacking again yields the same names" | `unpack_pack`, `unpack_pack_all_kept` (names, order), `names_normalized` (any bytes: names normalized and distinct), `pack_children_names_normalized`; `normalize`/UTF-8 abstract with the hypotheses in `RoundTrip` (NFC itself: **correspondence**, C19-a) |
 | "… the same capabilities", every capability kind | `unpack_pack` gives `canon` of every child (re-creation by `create_from_cap`); `canon` is the identity for known nodes (`canon_known_node`), for an unknown write cap next to a known or unknown read cap (`canon_unknown_rw_known_ro`, `canon_unknown_rw`), for a lone unknown read cap (`canon_unknown_ro_only`); both slots byte-identical after a second generation (`repack_preserves_both_slots`, `pack_unpack_pack`). Caps with trailing spaces are canonicalised (rstrip, by design — inside `canon`); caps with *two* alleged prefixes are NOT preserved: `double_prefix_child_is_dropped_counterexample` (open known finding) |
-| "… unknown future caps" in an immutable directory (strengthening to `imm.`) | inside `canon` (`unpack_pack`); identity statement: **correspondence + monitor only** |
+| "… unknown future caps" in an immutable directory (strengthening to `imm.`) | inside `canon` (`unpack_pack`); identity for an `imm.`-alleged unknown cap: `canon_unknown_imm_in_immutable_dir` (an `ro.`-alleged or unprefixed one comes back `imm.`-alleged — by design; correspondence + monitor) |
 | "arbitrary JSON metadata … the same metadata" | `unpack_pack` / `unpack_pack_all_kept` under `RoundTrip.json` (JSON codec abstract; sampled on the real `json`) |
 | "immutable directories refuse mutable or write-capable children instead of storing them" | `immutable_dir_refuses_mutable` (pack succeeds iff …; unpack of an immutable directory never returns such a child, for any bytes) |
-| packing a listing for another directory (C19-b), the AuxValueDict cache | cache modelled (`Child.aux`, `pack_unpack_pack`); `pack_children` drops it (`normalizeChildren`): **correspondence + monitor** for the cross-directory case |
+| packing a listing for another directory (C19-b), the AuxValueDict cache | cache modelled (`Child.aux`, `pack_unpack_pack`); `pack_children` builds a plain dict, so cached entries are not reused: `listing_packed_for_another_directory` (+ correspondence + monitor on real listings) |
 | netstring framing of malformed data (`int()` quirks) | C38; here strict digits: **correspondence** on structured malformed data |
 -/
 namespace Tahoe.C19
@@ -361,6 +361,54 @@ example : canon demoWorld ⟨true, true, some ()⟩ ⟨true, some [119], some (r
       ⟨true, some [119], some (roPrefix ++ [114]), false, false⟩ ∧
     canon demoWorld ⟨true, true, some ()⟩ ⟨true, none, some (roPrefix ++ [114]), false, false⟩ =
       ⟨true, none, some (roPrefix ++ [114]), false, false⟩ := by decide
+
+/-- An unknown read cap held with the `imm.` allegation comes back as it was from an **immutable** directory (the
+    stored form has the prefix stripped; reading re-derives it: the documented strengthening). -/
+theorem canon_unknown_imm_in_immutable_dir (cx : DirCtx Key) (hm : cx.mutableDir = false) (rf : Bytes)
+    (hfs : fromString W.classify rf true = .unknownOk) (hrf0 : rstripOrNone rf = some rf)
+    (hp3 : startsWith rf immPrefix = false) (hp4 : startsWith rf roPrefix = false) :
+    canon W cx ⟨true, none, some (immPrefix ++ rf), false, false⟩ =
+      ⟨true, none, some (immPrefix ++ rf), false, false⟩ := by
+  have hrfe : truthy (some rf) = true := by
+    cases rf with
+    | nil => simp [rstripOrNone, rstrip] at hrf0
+    | cons a t => rfl
+  have hs1 : startsWith (immPrefix ++ rf) immPrefix = true := by
+    simp [startsWith, immPrefix, List.isPrefixOf]
+  have hstrip : stripPrefixForRo (immPrefix ++ rf) true = rf := by
+    unfold stripPrefixForRo
+    rw [hs1]
+    simp [immPrefix]
+  have hnone : rstripOrNone ([] : Bytes) = none := by simp [rstripOrNone, rstrip]
+  have htn : truthy (none : Option Bytes) = false := rfl
+  have hbeq : (fromString W.classify rf true == Parsed.unknownErr) = false := by rw [hfs]; rfl
+  have hite : (if cx.writeable = true then ([] : Bytes) else []) = [] := by split <;> rfl
+  simp only [canon, hm, Option.getD_none, Option.getD_some, hite, Bool.not_false, hstrip, hnone, hrf0, createFromCap,
+    htn, hrfe, orNone, hfs, Bool.false_eq_true, if_false, if_true, mkUnknown, hbeq]
+  simp [hp3, hp4]
+
+/-- **A listing packed for another directory** (`pack_children(listing, other_writekey)`, what
+    `create_subdirectory(initial_children=listing)` / `create_dirnode(initial_children=listing)` do): `pack_children`
+    builds a plain dict, so the raw entries cached in the listing (encrypted under the *source* directory's key) are
+    not used; every child is encoded afresh under the target's key, and unpacking in the target directory gives
+    `canon` of every child exactly as for children that never had a cache (seeded C19-b). -/
+theorem listing_packed_for_another_directory (cx : DirCtx Key) (H : RoundTrip W cx) (l : List (Name × Child J))
+    (hnorm : ∀ e ∈ l, W.norm e.1 = e.1) (hdistinct : (l.map (·.1)).Nodup) (data : Bytes)
+    (hpack : pack W cx.writekey (!cx.mutableDir) false l = .ok data) :
+    unpack W cx data = some ((l.map clearAux).filterMap (keep W cx)) := by
+  rw [pack_plain_ignores_aux] at hpack
+  apply unpack_pack W cx H (l.map clearAux) _ _ data hpack
+  · intro e he
+    obtain ⟨x, hx, rfl⟩ := List.mem_map.mp he
+    exact hnorm x hx
+  · have : (l.map clearAux).map (·.1) = l.map (·.1) := by simp [List.map_map, Function.comp_def, clearAux]
+    rw [this]; exact hdistinct
+
+example : canon demoWorld ⟨false, false, none⟩ ⟨true, none, some (immPrefix ++ [114]), false, false⟩ =
+      ⟨true, none, some (immPrefix ++ [114]), false, false⟩ ∧
+    pack demoWorld (some ()) false false [([97], ⟨⟨true, none, some [114, 111, 46, 120], false, false⟩, [123, 125], some [1, 2, 3]⟩)] =
+    pack demoWorld (some ()) false false [([97], ⟨⟨true, none, some [114, 111, 46, 120], false, false⟩, [123, 125], none⟩)] :=
+  ⟨by decide, pack_plain_ignores_aux demoWorld _ _ _⟩
 
 /-- … hence `pack ∘ unpack ∘ pack` preserves both cap slots: whenever `canon` fixes a node (known nodes —
     `canon_known_node`; a future write cap next to a known read cap — `canon_unknown_rw_known_ro`), the entry that
